@@ -8,10 +8,10 @@ from common import (ToolError, batch, log, scratch_dir, tlc, tlc_ok, write_ndjso
 import gen_prog
 
 
-def gen_programs(seed, n, size, err_rate=0.25, base=0):
+def gen_programs(seed, n, size, err_rate=0.25, base=0, features=None):
     progs, srcs = [], {}
     for i in range(n):
-        p, src = gen_prog.generate(seed * 1000003 + base + i, base + i, size=size, err_rate=err_rate)
+        p, src = gen_prog.generate(seed * 1000003 + base + i, base + i, size=size, err_rate=err_rate, features=features)
         progs.append(p)
         srcs[base + i] = src
     return progs, srcs
